@@ -94,6 +94,7 @@ type Contract struct {
 	Reveals       []string
 	Preserves     []string
 	TypeFrame     bool
+	Constructor   bool // the function creates the cache object: exclusive access until it returns
 	TypeFramePkgs []string
 	GhostVars     []GhostVar
 }
@@ -204,7 +205,7 @@ func (cs *ContractSet) loadContractFile(path, pkgPath string) error {
 			no   int
 		}{t, i + 1})
 	}
-	keywords := []string{"pred ", "abstract pred ", "func ", "extern func ", "functype ", "requires ", "ensures", "logical ", "loop ", "modifies", "pure", "assert ", "ghost ", "when ", "guarded ", "lemma ", "hint ", "by ", "use ", "trusted", "acquires ", "fn ", "ufun ", "axiom ", "deterministic", "frametags ", "opaque pred ", "reveal ", "preserves ", "ghostvar ", "typeframe", "typeframe "}
+	keywords := []string{"pred ", "abstract pred ", "func ", "extern func ", "functype ", "requires ", "ensures", "logical ", "loop ", "modifies", "pure", "assert ", "ghost ", "when ", "guarded ", "lemma ", "hint ", "by ", "use ", "trusted", "acquires ", "fn ", "ufun ", "axiom ", "deterministic", "frametags ", "opaque pred ", "reveal ", "preserves ", "ghostvar ", "typeframe", "typeframe ", "constructor"}
 	startsKeyword := func(s string) bool {
 		s = strings.TrimSpace(s)
 		for _, k := range keywords {
@@ -438,6 +439,8 @@ func (cs *ContractSet) loadContractFile(path, pkgPath string) error {
 				cur.Pure = true
 			case t == "deterministic":
 				cur.Deterministic = true
+			case t == "constructor":
+				cur.Constructor = true
 			case t == "typeframe" || strings.HasPrefix(t, "typeframe "):
 				cur.TypeFrame = true
 				for _, x := range strings.Split(strings.TrimSpace(strings.TrimPrefix(t, "typeframe")), ",") {
